@@ -7,19 +7,8 @@ inside their parent cell, and whose returned cell maps assign each new cell to e
 Structured refinement maps every fine cell to the unique coarse cell that contains it.
 -/
 import PorepyVerif.C23.Lemmas
-import Mathlib.Analysis.SpecialFunctions.Sqrt
 
 namespace PorepyVerif.C23
-
-/-- Euclidean length of a rational vector (a real number) -/
-noncomputable def len (v : V3) : ℝ := Real.sqrt ((V3.nsq v : Rat) : ℝ)
-
-theorem len_smul (t : Rat) (ht : 0 ≤ t) (v : V3) : len (V3.smul t v) = (t : ℝ) * len v := by
-  unfold len
-  rw [nsq_smul]
-  push_cast
-  have ht' : (0 : ℝ) ≤ (t : ℝ) := by exact_mod_cast ht
-  rw [Real.sqrt_mul (mul_self_nonneg _), Real.sqrt_mul_self ht']
 
 /-! ## refine_grid_1d -/
 
@@ -175,13 +164,6 @@ example : remeshNodes ⟨0, 0, 0⟩ ⟨3, 0, 0⟩ 4 = [⟨3, 0, 0⟩, ⟨2, 0, 0
 
 /-! ## refine_triangle_grid -/
 
-def triCoords (N : List P2) (t : Tri) : P2 × P2 × P2 := (p2At N t.1, p2At N t.2.1, p2At N t.2.2)
-
-/-- the four geometric children of the triangle (P, Q, S) -/
-def geomChildren (P Q S : P2) : List (P2 × P2 × P2) :=
-  [ (Q, P2.mid Q S, P2.mid P Q), (S, P2.mid S P, P2.mid Q S), (P, P2.mid P Q, P2.mid S P),
-    (P2.mid P Q, P2.mid Q S, P2.mid S P) ]
-
 /-- INDEX CONSTRUCTION: for a cell whose stored faces `(f0, f1, f2)` are the three edges
     `{p,q}, {q,s}, {s,p}` of a triangle (faces stored in either node order — every triangle's face
     list has this form for a suitable naming of its corners), the four index triples built by
@@ -249,6 +231,29 @@ theorem tri_children_area (P Q S : P2) :
 
 example : (geomChildren ⟨0, 0⟩ ⟨4, 0⟩ ⟨0, 2⟩).map (fun ch => area2 ch.1 ch.2.1 ch.2.2) = [2, 2, 2, 2] := by
   decide +kernel
+
+/-- NESTING (centres): the centre of every child lies strictly inside the parent triangle — so the
+    containment test of `structured_refinement` (`inside2d`) finds the parent of every child, for any
+    non-degenerate parent triangle of either orientation. -/
+theorem tri_child_centroid_inside (P Q S : P2) (hA : area2 P Q S ≠ 0) :
+    ∀ ch ∈ geomChildren P Q S, inside2d (P, Q, S) (centroid ch) = true := by
+  intro ch hch
+  simp only [geomChildren, List.mem_cons, List.not_mem_nil, or_false] at hch
+  rcases hch with rfl | rfl | rfl | rfl
+  · exact inside2d_of_bary P Q S _ (1 / 6) (2 / 3) (1 / 6) (by norm_num)
+      (by simp only [centroid, P2.mid]; ring) (by simp only [centroid, P2.mid]; ring)
+      (by norm_num) (by norm_num) (by norm_num) hA
+  · exact inside2d_of_bary P Q S _ (1 / 6) (1 / 6) (2 / 3) (by norm_num)
+      (by simp only [centroid, P2.mid]; ring) (by simp only [centroid, P2.mid]; ring)
+      (by norm_num) (by norm_num) (by norm_num) hA
+  · exact inside2d_of_bary P Q S _ (2 / 3) (1 / 6) (1 / 6) (by norm_num)
+      (by simp only [centroid, P2.mid]; ring) (by simp only [centroid, P2.mid]; ring)
+      (by norm_num) (by norm_num) (by norm_num) hA
+  · exact inside2d_of_bary P Q S _ (1 / 3) (1 / 3) (1 / 3) (by norm_num)
+      (by simp only [centroid, P2.mid]; ring) (by simp only [centroid, P2.mid]; ring)
+      (by norm_num) (by norm_num) (by norm_num) hA
+
+example : inside2d (⟨0, 0⟩, ⟨4, 0⟩, ⟨0, 2⟩) (centroid (⟨4, 0⟩, ⟨2, 1⟩, ⟨2, 0⟩)) = true := by decide +kernel
 
 /-- PARENT MAP: the refined grid has `4·nc` cells; column `4c + t` (`t < 4`) is child `t` of cell
     `c`, its parent `triParent (4c+t)` is `c`, and a new cell has parent `c` iff its number lies in
